@@ -59,12 +59,19 @@ def unit_steps(idx) -> Dict[bool, List[List[Poly]]]:
     out = {}
     body = [s for s in f.node.body if not (isinstance(s, ast.Expr) and isinstance(s.value, ast.Constant))]
     for st in body:
+        # canonical form (canon C11): `if cornersUp: u = (...) else: u = (...)` is the conditional expression `u = (...) if cornersUp else (...)`
+        if isinstance(st, (ast.Assign, ast.Return)) and isinstance(st.value, ast.IfExp) and isinstance(st.value.body, ast.Tuple) and isinstance(st.value.orelse, ast.Tuple):
+            tg = st.targets if isinstance(st, ast.Assign) else [ast.Name(id="_unitSteps", ctx=ast.Store())]
+            st = ast.If(test=st.value.test, body=[ast.Assign(targets=tg, value=st.value.body)], orelse=[ast.Assign(targets=tg, value=st.value.orelse)])
         if isinstance(st, ast.Assign) and isinstance(st.targets[0], ast.Name) and not isinstance(st.value, ast.Tuple):
             E.env[st.targets[0].id] = E.ev(st.value)
         elif isinstance(st, ast.If):
-            if norm(st.test) != "cornersUp":
+            test, legs = norm(st.test), ((True, st.body), (False, st.orelse))
+            if test == "not cornersUp":
+                test, legs = "cornersUp", ((False, st.body), (True, st.orelse))
+            if test != "cornersUp":
                 raise AnalysisError(f"_getRawUnitSteps: unexpected test `{norm(st.test)}`")
-            for flag, blk in ((True, st.body), (False, st.orelse)):
+            for flag, blk in legs:
                 a = next((s for s in blk if isinstance(s, ast.Assign) and isinstance(s.value, ast.Tuple)), None)
                 if a is None:
                     raise AnalysisError("_getRawUnitSteps: tuple of unit steps not found")
@@ -106,19 +113,46 @@ def if_chain(fnode_or_stmts) -> List[Tuple[List[Tuple[ast.AST, bool]], List[ast.
     stmts = fnode_or_stmts if isinstance(fnode_or_stmts, list) else fnode_or_stmts.body
     first = next((s for s in stmts if isinstance(s, ast.If)), None)
     if first is None:
-        raise AnalysisError("decision chain not found")
+        # canonical form (canon C11/C4): a ladder of single assignments to one name is one (nested) conditional expression
+        st = next((s for s in stmts if isinstance(s, (ast.Assign, ast.Return)) and isinstance(s.value, ast.IfExp)), None)
+        if st is None:
+            raise AnalysisError("decision chain not found")
+        tg = st.targets if isinstance(st, ast.Assign) else [ast.Name(id="_result", ctx=ast.Store())]
+        out, neg, e = [], [], st.value
+        while isinstance(e, ast.IfExp):
+            out.append((neg + [(e.test, True)], [ast.copy_location(ast.Assign(targets=tg, value=e.body), e.body)]))
+            neg = neg + [(e.test, False)]
+            e = e.orelse
+        out.append((neg, [ast.copy_location(ast.Assign(targets=tg, value=e), e)]))
+        return out
+    def leaves(body):
+        if not body:
+            return False
+        last = body[-1]
+        if isinstance(last, (ast.Return, ast.Raise, ast.Continue, ast.Break)):
+            return True
+        return isinstance(last, ast.If) and bool(last.orelse) and leaves(last.body) and leaves(last.orelse)
     out = []
     neg = []
-    cur = first
+    cur, where = first, stmts
     while True:
         out.append((neg + [(cur.test, True)], cur.body))
         neg = neg + [(cur.test, False)]
         if len(cur.orelse) == 1 and isinstance(cur.orelse[0], ast.If):
-            cur = cur.orelse[0]
-        else:
-            if cur.orelse:
-                out.append((neg, cur.orelse))
+            cur, where = cur.orelse[0], cur.orelse
+        elif cur.orelse:
+            out.append((neg, cur.orelse))
             break
+        else:
+            # canonical form (canon C10): a branch that always leaves has no else; what follows it in the same statement list is its else
+            rest = where[where.index(cur) + 1:] if cur in where else []
+            if not (leaves(cur.body) and rest):
+                break
+            if isinstance(rest[0], ast.If):
+                cur = rest[0]
+            else:
+                out.append((neg, rest))
+                break
     return out
 
 
